@@ -187,6 +187,8 @@ static void fill(unsigned char *x, size_t n, int style)
 	}
 }
 
+static int first_call;
+
 int main(int argc, char **argv)
 {
 	const char *mode = argc > 1 ? argv[1] : "small";
@@ -197,8 +199,38 @@ int main(int argc, char **argv)
 	int ci, work = 0;
 	static unsigned char x[8192];
 
+	/* Which Base32 entry point a process uses first is the caller's business (iodined's first tunnel query may be a command
+	   that only reads header characters): every shard is its own process and starts with a different first call. */
+	{
+		const struct encoder *e32 = &base32_ops;
+		char t[16]; size_t tl = sizeof(t) - 1; unsigned char r[8];
+		switch (shard % 7) {
+		case 1: (void)b32_8to5('b'); break;
+		case 2: (void)b32_5to8(7); break;
+		case 3: e32->encode(t, &tl, "ab", 2); break;
+		case 4: e32->decode(r, &tl, "mfrgg", 5); break;
+		case 5: e32->decode(r, &tl, "MFRGG", 5); break;
+		case 6: (void)b32_8to5('B'); break;
+		default: break;
+		}
+		first_call = shard % 7;
+	}
 	init_codecs();
 	drv_seed(seed * 7919u + (unsigned)shard * 104729u + 17);
+	{
+		/* the single-character helpers agree with the codec, in either letter case */
+		int v;
+		for (v = 0; v < 32; v++) {
+			int ch = b32_5to8(v);
+			int up = (ch >= 'a' && ch <= 'z') ? ch - 32 : ch;
+			evals++;
+			if (b32_8to5(ch) != v || b32_8to5(up) != v) {
+				DRV_VIOL("C07:b32:single-char-helpers", "b32_5to8(%d)='%c'; b32_8to5('%c')=%d, b32_8to5('%c')=%d (first call of the process: variant %d)\t-",
+					 v, ch, ch, b32_8to5(ch), up, b32_8to5(up), first_call);
+				break;
+			}
+		}
+	}
 
 	for (ci = 0; ci < 4; ci++) {
 		const struct cdc *c = &C[ci];
